@@ -455,6 +455,22 @@ def handle (op : String) (args : List String) : Option String :=
         (deepGraphKeepAt (fun c i => loopKeep m (ti, p) c.name c.isPipe i) n n ti p)
       let fix := (unusedCallPlan (removeUnused true [] p)).1.isEmpty
       some s!"hyp={StructOK p} same={decide (lhs = rhs) && le && decide (lhsL = rhsL) && fix && decide (removeUnused true [] p = (callsIter m (ti, p)).2)} removed={plan.1.length} passes={m}"
+    | "removeOutputsPass" =>
+      -- one outputs pass of the -top-calls loop (remove_unused_outputs_pass_graph_partial); x = top pipelines
+      let tops := x.splitOn ","
+      match unusedOutputsO p p tops with
+      | none => some s!"hyp=false exhausted=false same=true"
+      | some T =>
+        let pairs := tablePairs T
+        let ins := outPassIns p T
+        let hyp := StructOK p && allReachB p tops && !T.isEmpty && TableShapeOK T p && TableStructOK pairs ti p
+        let after := (removeUnusedOutputsPass p tops p).1
+        let lhs := deepGraph ((ti.removeOutputs pairs).removeInputs ins) after
+        let rhs := ins.foldl (fun g xq => g.map (remNodeIn xq.1 xq.2))
+          (pairs.foldl (fun g xo => g.map (remNodeOut xo.1 xo.2)) (deepGraph ti p))
+        let same := decide (lhs = rhs) && decide (after = removeInputs ins (outSteps pairs p))
+          && decide (unusedOutputs p p tops = T)
+        some s!"hyp={hyp} exhausted=true same={same} struct={StructOK p} reach={allReachB p tops} nonempty={!T.isEmpty} shape={TableShapeOK T p} tstruct={TableStructOK pairs ti p} outs={pairs.length} ins={ins.length} onepass={decide (removeUnused false tops p = after)}"
     | "renameCallable" =>
       let hyp := WF p && FreshFor x b p && (p.find? x).isSome && RenCallOK x b ti (eraseIds p)
       some s!"hyp={hyp} same={decide (deepGraph (ti.renameCallable x b) (eraseIds (renameCallable x b p)) = (deepGraph ti (eraseIds p)).map (renNodeCallable x b))}"
@@ -470,6 +486,13 @@ def handle (op : String) (args : List String) : Option String :=
     | "removeInput" =>
       let pairs := removeInputClosure p (closureFuel p) [(x, a)] []
       some (showGraph (pairs.foldl (fun g xq => g.map (remNodeIn xq.1 xq.2)) (deepGraph ti p)))
+    | "removeOutputsPass" =>
+      let tops := x.splitOn ","
+      match unusedOutputsO p p tops with
+      | none => none
+      | some T =>
+        some (showGraph ((outPassIns p T).foldl (fun g xq => g.map (remNodeIn xq.1 xq.2))
+          ((tablePairs T).foldl (fun g xo => g.map (remNodeOut xo.1 xo.2)) (deepGraph ti p))))
     | "removeCalls" =>
       -- the right-hand side of remove_unused_calls_loop_graph_exact_partial: the original graph restricted
       -- to the calls every pass keeps, minus the cascaded input keys
